@@ -10,11 +10,21 @@ type referencer interface {
 // PropertyReference
 
 type propertyReference struct {
-	base    *object
-	runtime *runtime
-	name    string
-	at      at
-	strict  bool
+	base      *object
+	runtime   *runtime
+	name      string
+	at        at
+	strict    bool
+	primitive *Value // the base value itself when it is a primitive and base is its wrapper (8.7)
+}
+
+// thisValue is the this value of a call made through the reference
+// (11.2.3 step 6.a.i, GetBase(ref)): a primitive base is passed as it is.
+func (pr *propertyReference) thisValue() Value {
+	if pr.primitive != nil {
+		return *pr.primitive
+	}
+	return objectValue(pr.base)
 }
 
 func newPropertyReference(rt *runtime, base *object, name string, strict bool, atv at) *propertyReference {
